@@ -119,6 +119,16 @@ def gen_generic(rng, env):
         lambda: coordexpr(rng, env) * c.dot(c.grad(u), c.grad(v)) + u * v, lambda: c.dot(c.grad(uu), q),
         lambda: c.grad(u * v), lambda: c.dot(w, c.grad(u)), lambda: coordexpr(rng, env) * c.div(q) + p,
     ]
+    # operators applied to a product with a coordinate-dependent coefficient, transposed gradients
+    # (added after seeded changes C03-3 and C03-4, which only showed on these shapes, route A)
+    from sympde.calculus.matrices import Transpose
+    opts += [lambda: c.grad(coordexpr(rng, env) * u), lambda: c.div(coordexpr(rng, env) * q),
+             lambda: c.div(coordexpr(rng, env) * Fh), lambda: c.laplace(coordexpr(rng, env) * uu),
+             lambda: c.dot(c.grad(coordexpr(rng, env) * u), c.grad(v)),
+             lambda: c.grad(coordexpr(rng, env) * u), lambda: c.laplace(coordexpr(rng, env) * uu),
+             lambda: Transpose(c.grad(Fh)), lambda: c.inner(c.grad(Fh), Transpose(c.grad(Gh))),
+             lambda: c.inner(c.grad(Fh) + Transpose(c.grad(Fh)), c.grad(Gh)),
+             lambda: c.inner(c.grad(Fh), Transpose(c.grad(Fh)))]
     if d >= 2:
         opts += [lambda: c.curl(w), lambda: c.curl(w) * p if d == 2 else c.dot(c.curl(w), c.curl(w2)),
                  lambda: c.dot(c.curl(w), q) if d == 3 else c.curl(w) * c.curl(w2),
@@ -405,6 +415,16 @@ def fixed_corpus(ctx):
         out.append((env, cc.div(env.vf['hdiv'][0]), 'corpus:div(hdiv) %s %dd' % (mt, dim)))
         if dim > 1:
             out.append((env, cc.curl(env.vf['hcurl'][0]), 'corpus:curl(hcurl) %s %dd' % (mt, dim)))
+        if (dim, mt) in ((2, 'polar'), (2, 'polyneg')):
+            from sympde.calculus.matrices import Transpose
+            f = sympy.sin(env.coords[0] * env.coords[1]) + env.coords[0] ** 2
+            uu = env.sf['undefined'][0]
+            Fh, Gh = env.vf['h1']
+            out.append((env, cc.grad(f * u), 'corpus:grad(f*u) %s' % mt))
+            out.append((env, cc.laplace(f * uu), 'corpus:laplace(f*u) %s' % mt))
+            out.append((env, cc.div(f * env.vf['hdiv'][0]), 'corpus:div(f*q) %s' % mt))
+            out.append((env, Transpose(cc.grad(Fh)), 'corpus:Transpose(grad(F)) %s' % mt))
+            out.append((env, cc.inner(cc.grad(Fh) + Transpose(cc.grad(Fh)), cc.grad(Gh)), 'corpus:symmetric gradient %s' % mt))
     return out
 
 
